@@ -54,7 +54,10 @@ type Gen struct {
 	NRecv int  `json:"nrecv"`
 	NExp  int  `json:"nexp"`
 	Proc  bool `json:"proc,omitempty"`
-	Ext   bool `json:"ext,omitempty"`
+	Ext   bool `json:"ext,omitempty"`  // (older scripts) at least one extension
+	NExt  int  `json:"next,omitempty"` // number of extensions (0-3); they start before and stop after the pipelines
+	// ExtRev lists the extensions in reverse in service::extensions (their start order is the collector's business)
+	ExtRev bool `json:"extrev,omitempty"`
 	// Kind: good | start-fail | create-fail | retrieve-err | bad-yaml | unknown-key | unknown-type | undefined-ref
 	Kind string `json:"kind"`
 	Comp int    `json:"comp,omitempty"` // component index for start-fail / create-fail
@@ -150,7 +153,7 @@ func genGen(t *rapid.T, i, total int) Gen {
 		NRecv: 1 + uni(t, lb("nrecv"), 2),
 		NExp:  1 + uni(t, lb("nexp"), 2),
 		Proc:  rapid.Bool().Draw(t, lb("proc")),
-		Ext:   rapid.Bool().Draw(t, lb("ext")),
+		NExt:  uni(t, lb("next"), 4),
 		Kind:  "good", ShutFail: -1, PauseStart: -1, PauseShut: -1,
 	}
 	badPct := 7
@@ -159,13 +162,14 @@ func genGen(t *rapid.T, i, total int) Gen {
 	}
 	if pct(t, lb("bad"), badPct) {
 		g.Kind = oneOf(t, lb("kind"), badKinds)
-		g.Comp = uni(t, lb("comp"), 6)
+		g.Comp = uni(t, lb("comp"), 8)
 	}
-	if pct(t, lb("sf"), 12) {
-		g.ShutFail = uni(t, lb("shutfail"), 6)
+	g.ExtRev = g.NExt > 1 && rapid.Bool().Draw(t, lb("extrev"))
+	if pct(t, lb("sf"), 16) {
+		g.ShutFail = uni(t, lb("shutfail"), 8)
 	}
 	if pct(t, lb("ps"), 45) {
-		g.PauseStart = uni(t, lb("pause-start"), 6)
+		g.PauseStart = uni(t, lb("pause-start"), 8)
 		kinds := pauseKinds
 		if i == 0 {
 			kinds = noSigKinds // Run has not registered its signal handlers before the first Running
@@ -186,7 +190,7 @@ func genGen(t *rapid.T, i, total int) Gen {
 		g.AtRunning = genActs(t, lb("at-running"), runningKinds, 3)
 	}
 	if pct(t, lb("pd"), 45) {
-		g.PauseShut = uni(t, lb("pause-shut"), 6)
+		g.PauseShut = uni(t, lb("pause-shut"), 8)
 		g.AtShut = genActs(t, lb("at-shut"), pauseKinds, 2)
 	}
 	if pct(t, lb("cf"), 12) {
@@ -1110,6 +1114,36 @@ func classify(c *vt.C, d *driver) {
 			}
 		case strings.HasPrefix(e.Op, "h:running:") && strings.HasSuffix(e.Op, ":fatal"):
 			c.Class("fatal-async:while-running")
+		}
+	}
+	// extensions: how many, and where a failing extension Shutdown sits in the stop order
+	for g := 0; g < d.w.numRetrieves(); g++ {
+		spec := s.gen(g)
+		c.Class(fmt.Sprintf("extensions-in-generation:%d", spec.numExt()))
+		failer := ""
+		if spec.ShutFail >= 0 {
+			failer = pick(spec.comps(), spec.ShutFail)
+		}
+		if !strings.HasPrefix(failer, extType+"/") || spec.numExt() < 2 {
+			continue
+		}
+		seen, after := false, 0
+		for _, e := range ev {
+			if e.Gen != g || e.Op != "shutdown" || !strings.HasPrefix(e.Comp, extType+"/") {
+				continue
+			}
+			if e.Comp == failer {
+				seen = true
+			} else if seen {
+				after++
+			}
+		}
+		switch {
+		case !seen:
+		case after > 0:
+			c.Class("extension-shutdown-fails:others-stopped-after-it")
+		default:
+			c.Class("extension-shutdown-fails:last-in-stop-order")
 		}
 	}
 	if n := d.fatalReports + int(d.w.syncFatal.Load()); n > 1 {
